@@ -49,16 +49,15 @@ func init() {
 		return nil
 	}
 	checks["C09"] = func(c *CheckCtx) {
+		// 3 functions per side did not finish within 40 minutes (solver-chosen map order times the
+		// similarity case splits): both tiers run 2; the thorough tier adds the native validation of witnesses
 		mf := int64(2)
-		if c.Tier == "thorough" {
-			mf = 3
-		}
 		cfgs := []*HarnessCfg{
 			{Name: "VerifC09_Matcher", Pkg: diffPkg, Solver: "cvc5", TimeoutMs: 60000, MaxPaths: 2000000, MapOrderSym: true, EngineReplay: true,
 				Params: map[string]int64{"maxfuncs": mf}, Stubs: matcherStubs()},
 		}
 		c.Assumptions = append(c.Assumptions,
-			"files of up to 2 (thorough 3) old and new functions; each new function keeps the name of some old function or has a fresh name; fuzzy buckets solver-chosen from two; threshold 0.6",
+			"files of up to 2 old and new functions (3 did not finish within 40 minutes); each new function keeps the name of some old function or has a fresh name; fuzzy buckets solver-chosen from two; threshold 0.6",
 			"topology.ExtractTopology and topology.TopologySimilarity are stubs (bound topology; an arbitrary similarity in [0,1] per ordered pair); Go map iteration order is a solver variable",
 			"cli.ComputeDiff's summary counters and the added/removed operation lists of the zipper are NOT encoded (stated gap); counterexamples are confirmed by concrete re-execution of the matcher's SSA because similarity values cannot be forged natively")
 		c.runModeT([]string{"pkg/diff"}, cfgs)
